@@ -59,8 +59,11 @@ def match_known(prop: str, viol: dict, known: list[dict]) -> dict | None:
     return None
 
 
+OUT = Path(os.environ.get("VERIF_OUT") or VERIF)      # development: redirect evidence/ and replays/ elsewhere
+
+
 def write_replay(prop: str, payload: dict) -> Path:
-    d = VERIF / "replays"
+    d = OUT / "replays"
     d.mkdir(exist_ok=True)
     p = d / f"{prop}-{SEED}.json"
     p.write_text(json.dumps(jsonable(payload), indent=1))
@@ -163,7 +166,7 @@ def main() -> int:
                                    "key": v.get("key"), "stream": v.get("stream"), "stream_module": v.get("stream_module"),
                                    "input": v["replay"], "other_violations": [x[0]["what"] for x in fresh[1:6]]})
         print(f"violation: {v['what']}")
-        print(f"VIOLATION property={prop} replay={path.relative_to(VERIF)}")
+        print(f"VIOLATION property={prop} replay={path.relative_to(OUT)}")
         exit_code = 1
     elif proof_broken or disagreements:
         nviol = 1
@@ -178,7 +181,7 @@ def main() -> int:
             print("correspondence disagreement:", json.dumps(jsonable(d))[:600])
         for f_ in proof.get("failures", [])[:5]:
             print("proof obligation:", f_)
-        print(f"VIOLATION property={prop} replay={path.relative_to(VERIF)} no-failing-input-found")
+        print(f"VIOLATION property={prop} replay={path.relative_to(OUT)} no-failing-input-found")
         exit_code = 1
     elif infra_errors:
         for e in infra_errors:
@@ -213,8 +216,8 @@ def main() -> int:
         "wall_s": round(time.time() - t0, 2),
         "violations": nviol,
     }
-    (VERIF / "evidence").mkdir(exist_ok=True)
-    (VERIF / "evidence" / f"{prop}.json").write_text(json.dumps(jsonable(ev), indent=1))
+    (OUT / "evidence").mkdir(exist_ok=True)
+    (OUT / "evidence" / f"{prop}.json").write_text(json.dumps(jsonable(ev), indent=1))
     if exit_code == 0:
         print(f"{prop} {args.tier}: held — {proof['discharged']}/{proof['obligations']} theorems, "
               f"{evaluations} correspondence cases ({nontrivial} non-trivial), {ev['wall_s']} s")
